@@ -22,9 +22,10 @@ class ContractBroken(Exception):
 
 def _judge_total(cls, total, terms_vals):
     STATE["judged_total"] += 1
+    tol = 1e-9 if np.asarray(total).dtype == np.float64 else 2e-5  # float32 totals: a few ulps of the largest term
     total = float(np.asarray(total))
     s = float(np.sum([float(np.asarray(v)) for v in terms_vals]))
-    ok = (np.isnan(total) and np.isnan(s)) or abs(total - s) <= 1e-9 * max(1.0, abs(s))
+    ok = (np.isnan(total) and np.isnan(s)) or abs(total - s) <= tol * max(1.0, abs(s), max([abs(float(np.asarray(v))) for v in terms_vals] or [0.0]))
     if not ok and len(STATE["fail"]) < 20:
         STATE["fail"].append(("C03", "contract/total-not-sum/%s" % cls,
                               "%s.evaluate returned total %r but its terms sum to %r" % (cls, total, s)))
